@@ -9,7 +9,7 @@
 //! binding, a fresh one when a binding is re-opened, nothing carried from one process to the next), and how the packet
 //! ids of a datagram session advance across the applications, targets and directions of real traffic.
 
-use std::collections::HashSet;
+use std::collections::{HashMap, HashSet};
 use std::sync::Arc;
 use std::time::Duration;
 
@@ -414,6 +414,40 @@ async fn present(via: Transport, port: u16, wire: &[u8]) -> Result<Vec<u8>, Stri
     Ok(got)
 }
 
+/// Like `present`, for two connections at once and in two pieces: the first `head` bytes travel on both connections,
+/// 150 ms later the rest on both (whatever a server decides at the first bytes of a request it decides for both copies
+/// before either is complete).
+async fn present_twins(via: Transport, port: u16, wire: &[u8], head: usize) -> Result<(Vec<u8>, Vec<u8>), String> {
+    let head = head.min(wire.len().saturating_sub(1)).max(1);
+    let (mut p1, mut p2) = (super::pipe::Pipe::connect(via, port).await?, super::pipe::Pipe::connect(via, port).await?);
+    p1.send(&wire[..head]).await?;
+    p2.send(&wire[..head]).await?;
+    tokio::time::sleep(Duration::from_millis(150)).await;
+    p1.send(&wire[head..]).await?;
+    p2.send(&wire[head..]).await?;
+    let mut outs = Vec::new();
+    for p in [&mut p1, &mut p2] {
+        let mut got = Vec::new();
+        let deadline = tokio::time::Instant::now() + Duration::from_secs(3);
+        loop {
+            let wait = if got.is_empty() { Duration::from_millis(1200) } else { Duration::from_millis(400) };
+            match tokio::time::timeout(wait, p.recv()).await {
+                Ok(Ok(Some(b))) => got.extend_from_slice(&b),
+                _ => break,
+            }
+            if got.len() > 65536 || tokio::time::Instant::now() > deadline {
+                break;
+            }
+        }
+        outs.push(got);
+    }
+    p1.abort();
+    p2.abort();
+    let b = outs.pop().unwrap_or_default();
+    let a = outs.pop().unwrap_or_default();
+    Ok((a, b))
+}
+
 /// A request the server has answered is presented again, verbatim, by a third party (an attacker who taped it): once
 /// more, and as three simultaneous copies. The server seals its answers under keys it derives from the request (VMess:
 /// response header and body key / IV are functions of the request's; Shadowsocks: the master key and a salt of the
@@ -521,6 +555,32 @@ async fn replayed_requests(a: Args, idx: usize, proto: Proto, transport: Transpo
         }
         tokio::time::sleep(Duration::from_millis(100)).await;
         served_again += dials.load(std::sync::atomic::Ordering::SeqCst).saturating_sub(before);
+        // twins: a FRESH request arrives on two connections at the same time and in two pieces (the cut behind the part
+        // of the request that identifies it - auth id / salt - and before its header is complete)
+        for head in [20usize, 40] {
+            let opts = ClientOpts { vmess_option: *rng.pick(&[0x01u8, 0x05, 0x0D, 0x1D]), ..ClientOpts::default() };
+            let mut c = RefClient::new(&cfg, &refimpl::addr::Addr::V4([127, 0, 0, 1], tport), &mut rng, now_s(), opts);
+            let n = rng.range(1, 300);
+            let wire = c.write(&rng.bytes(n), &mut rng);
+            // Shadowsocks 2022 wants salt and fixed header in the first read: such a request is legitimately refused when cut there
+            if matches!(proto, Proto::Ss(m) if m.is_2022()) {
+                continue;
+            }
+            let Ok((a1, a2)) = present_twins(transport, d.server_port, &wire, head).await else { continue };
+            rep.evaluations += 2;
+            rep.mon("replay:twin_requests_presented_in_two_pieces", 2);
+            for (k, ans) in [a1, a2].iter().enumerate() {
+                if ans.is_empty() {
+                    continue;
+                }
+                rep.mon("replay:twin_requests_answered", 1);
+                refimpl::unit_log_start();
+                let _ = decode_link_x(&cfg, &wire, ans, &mut fresh, k > 0);
+                let units = refimpl::unit_log_take();
+                rep.mon("replay:aead_units_recorded", units.len() as u64);
+                check_units(&mut rep, "wire-replay", &cfgname, units, &mut set, json!({"seed": a.seed, "round": round, "twin": k, "first_piece_bytes": head, "answer_bytes": ans.len(), "deploy": d.describe()}));
+            }
+        }
     }
     rep.mon("replay:copies_that_reached_the_target_(C10_judges_that)", served_again);
     rep.case(&("wire-replay", idx), set.count > 0);
@@ -535,6 +595,91 @@ async fn replayed_requests(a: Args, idx: usize, proto: Proto, transport: Transpo
     if std::env::var("OSV_KEEP_LOGS").is_err() {
         let _ = std::fs::remove_dir_all(&dir);
     }
+    rep
+}
+
+/// One client session, two listeners: the server process runs two Shadowsocks 2022 inbounds with the same key (the
+/// configuration file is a list). A reference client sends datagrams of ONE session - packet ids 1..4 to the first
+/// listener, 5..8 to the second, then 9..10 to the first again - from one socket. Every answer is opened with the
+/// reference decoder: whatever the two listeners make of the session, no two answers may carry the same (server
+/// session id, packet id) - under one key that pair is the nonce.
+async fn udp_session_at_two_inbounds(a: Args, idx: usize, m: refimpl::ss::Method, users: usize) -> Report {
+    use refimpl::ss;
+    let mut rep = Report::new();
+    let mut rng = Rng::derive(a.seed, 0xC12D, idx as u64);
+    let cfg = Cfg::random(&mut rng, Proto::Ss(m), users);
+    let dir = work_dir(&a, &format!("c12-u{idx}"));
+    let d = Deploy::new(cfg.clone(), Transport::Tcp, true, 2, &dir);
+    let mut d_other = d.clone();
+    d_other.server_port = free_port();
+    let cfgname = format!("{}|udp|users={}", m.name(), users);
+    let two_inbounds = json!([d.server_entry(), d_other.server_entry()]);
+    let (dd, tag, p2) = (d.clone(), format!("c12-u{idx}"), d_other.server_port);
+    let started = tokio::task::spawn_blocking(move || {
+        let mut server = start_node("server", &two_inbounds, &dd.dir, &tag, dd.workers, &dd.log_level, None, None).map_err(|e| e.to_string())?;
+        wait_ready(&mut server, Some(dd.server_port), Some(dd.server_port), Duration::from_secs(15))?;
+        wait_ready(&mut server, Some(p2), Some(p2), Duration::from_secs(15))?;
+        Ok::<Node, String>(server)
+    })
+    .await
+    .unwrap();
+    let mut server = match started {
+        Ok(s) => s,
+        Err(e) => {
+            rep.inconclusive(format!("{cfgname}: server does not start: {}", e.lines().next().unwrap_or("")));
+            return rep;
+        }
+    };
+    let t = tokio::net::UdpSocket::bind("127.0.0.1:0").await.unwrap();
+    let tport = t.local_addr().unwrap().port();
+    let echo = tokio::spawn(async move {
+        let mut b = vec![0u8; 4096];
+        while let Ok((n, from)) = t.recv_from(&mut b).await {
+            let _ = t.send_to(&b[..n], from).await;
+        }
+    });
+    let keys = cfg.ref_client_keys();
+    let reply_key = keys.psk.clone();
+    let mut set = UnitSet::default();
+    let rounds = if a.thorough { 6 } else { 2 };
+    for round in 0..rounds {
+        let s = tokio::net::UdpSocket::bind("127.0.0.1:0").await.unwrap();
+        let session = rng.next_u64();
+        let mut seen: HashMap<(u64, u64), u16> = HashMap::new();
+        let mut answers = 0u64;
+        let mut buf = vec![0u8; 4096];
+        for (port, ids) in [(d.server_port, 1..=4u64), (d_other.server_port, 5..=8), (d.server_port, 9..=10)] {
+            for id in ids {
+                let p = ss::S22UdpPacket { session_id: session, packet_id: id, type_byte: 0, timestamp: now_s(), client_session_id: None, padding: vec![], addr: refimpl::addr::Addr::V4([127, 0, 0, 1], tport), payload: rng.bytes(40) };
+                let w = ss::s22_udp_client_encode(m, &keys, &p, &rng.arr());
+                let _ = s.send_to(&w, ("127.0.0.1", port)).await;
+                rep.evaluations += 1;
+                if let Ok(Ok((n, from))) = tokio::time::timeout(Duration::from_millis(800), s.recv_from(&mut buf)).await {
+                    refimpl::unit_log_start();
+                    let r = ss::s22_udp_client_decode(m, &reply_key, &buf[..n]);
+                    let units = refimpl::unit_log_take();
+                    if let Ok(pk) = r {
+                        answers += 1;
+                        rep.mon("udp-two-inbounds:answers_opened", 1);
+                        if let Some(first_port) = seen.insert((pk.session_id, pk.packet_id), from.port()) {
+                            rep.violation(format!("C12|udp-two-inbounds|{}|server-session-id-and-packet-id-used-twice", cfgname), format!("{cfgname}: two answers to one client session carry the same server session id and packet id {} (one from port {first_port}, one from port {})", pk.packet_id, from.port()), json!({"seed": a.seed, "round": round, "deploy": [d.server_entry(), d_other.server_entry()]}));
+                        }
+                        check_units(&mut rep, "udp-two-inbounds", &cfgname, units, &mut set, json!({"seed": a.seed, "round": round, "from_port": from.port()}));
+                    }
+                }
+            }
+        }
+        rep.case(&("udp-two-inbounds", idx, round), answers > 0);
+        if answers == 0 {
+            rep.inconclusive(format!("{cfgname}: no datagram of the session was answered"));
+        }
+    }
+    if !server.alive() {
+        rep.violation(format!("C12|udp-two-inbounds|{}|server-exited", cfgname), "server exited", json!({"log": server.log_tail(8)}));
+    }
+    echo.abort();
+    drop(server);
+    let _ = std::fs::remove_dir_all(&dir);
     rep
 }
 
@@ -567,6 +712,19 @@ pub async fn run(a: &Args) -> Report {
             hs.push(tokio::spawn(async move {
                 let _g = sem.acquire_owned().await.unwrap();
                 replayed_requests(a, idx * 8 + k, p, t).await
+            }));
+        }
+    }
+    {
+        use refimpl::ss::Method as M;
+        for (k, (m, users)) in [(M::B3Aes128Gcm, 0usize), (M::B3Aes256Gcm, 2), (M::B3ChaCha20Poly1305, 0), (M::B3ChaCha8Poly1305, 0)].into_iter().enumerate() {
+            if !a.thorough && (k + a.seed as usize) % 2 != 0 {
+                continue;
+            }
+            let (a, sem) = (a.clone(), sem.clone());
+            hs.push(tokio::spawn(async move {
+                let _g = sem.acquire_owned().await.unwrap();
+                udp_session_at_two_inbounds(a, k, m, users).await
             }));
         }
     }
